@@ -6,7 +6,7 @@ from collections import defaultdict
 
 from .lattice import dist_from_induced_sigalg, insert_join, insert_rv
 from .prune_expand import pruned_samplespace
-from ..helpers import flatten, parse_rvs, normalize_rvs
+from ..helpers import flatten, parse_rvs, normalize_rvs, RV_MODES
 from ..math import sigma_algebra
 from ..samplespace import CartesianProduct
 
@@ -224,11 +224,13 @@ def insert_joint_mss(dist, idx, rvs=None, rv_mode=None):
     d = dist.copy()
     l1 = d.outcome_length()
 
-    rvs = {tuple(rv) for rv in rvs}
+    # Work with indices from here on: the intermediate distributions built by
+    # insert_mss do not carry the variable names.
+    rvs = {tuple(parse_rvs(dist, rv, rv_mode)[1]) for rv in rvs}
 
     for rv in rvs:
         about = list(flatten(rvs - {rv}))
-        d = insert_mss(d, -1, rvs=list(rv), about=about, rv_mode=rv_mode)
+        d = insert_mss(d, -1, rvs=list(rv), about=about, rv_mode=RV_MODES.INDICES)
 
     l2 = d.outcome_length()
 
